@@ -13,7 +13,7 @@ pub const DEF: PropDef = PropDef {
     run,
     replay,
     level: "exploration",
-    rule: "negative differential: a consistent session spec (handshake string, suite, keys, PSKs, prologue) plus one disagreement between the peers (and random combinations of several): protocol name with identical structure but different string (modifier order permuted; custom names of equal length differing in one byte at any position incl. beyond HASHLEN), different hash of equal length, different cipher, sibling pattern (deferred variant) with the same message count; prologue differing in one bit / in length / empty vs non-empty; one bit of one PSK; a different valid pre-shared static key on either side, the right key with one bit changed (X25519: bit 255, i.e. the same point in another encoding), the right P-256 key negated (same ECDH outputs, other bytes). Oracle: running the handshake as far as calls succeed never ends with both sides finished and no error; if both could be converted, no transport message of one is accepted by the other. The same spec WITHOUT the disagreement completes (control run in the same case). Non-trivial = control completes and the disagreement was applicable; distinct by (name, suite, disagreement)",
+    rule: "negative differential: a consistent session spec (handshake string, suite, keys, PSKs, prologue) plus one disagreement between the peers (and random combinations of several): protocol name with identical structure but different string (modifier order permuted; custom names of equal length differing in one byte at any position incl. beyond HASHLEN, also non-ASCII names of HASHLEN characters but HASHLEN+2 bytes that differ in the last byte), different hash of equal length, different cipher, sibling pattern (deferred variant) with the same message count; prologue differing in one bit / in length / empty vs non-empty; one bit of one PSK; a different valid pre-shared static key on either side, the right key with one bit changed (X25519: bit 255, i.e. the same point in another encoding), the right P-256 key negated (same ECDH outputs, other bytes). Oracle: running the handshake as far as calls succeed never ends with both sides finished and no error; if both could be converted, no transport message of one is accepted by the other. The same spec WITHOUT the disagreement completes (control run in the same case). Non-trivial = control completes and the disagreement was applicable; distinct by (name, suite, disagreement)",
     technique: "negative differential testing (control session vs. session with one injected context disagreement); enumeration over all handshake strings + proptest combinations",
     assumptions: &["a pre-shared X25519 key with bit 255 set is judged as a different key: the specification hashes the key bytes as given (MixHash(rs) in the pre-message), so peers configured with different byte strings must not get a channel"],
     panic_is_violation: false,
@@ -47,6 +47,9 @@ pub enum Dis {
     /// P-256: the pre-shared static key given to one side is the peer's key NEGATED (x, p - y): a
     /// different, valid public key that yields the same ECDH outputs - only the transcript differs
     StaticKeyNegated(bool),
+    /// custom names with non-ASCII characters: HASHLEN characters but HASHLEN+2 bytes, differing
+    /// only in the last byte (beyond HASHLEN bytes; a name longer than HASHLEN BYTES is hashed)
+    CustomNameUnicode,
 }
 
 #[derive(Clone, Debug, Serialize, Deserialize)]
@@ -183,6 +186,19 @@ fn apply(spec: &SessionSpec, dis: &[Dis]) -> Option<(SessionSpec, EpOverrides, S
                 } else {
                     or.rs_value = Some(wrong);
                 }
+            },
+            Dis::CustomNameUnicode => {
+                let hl = spec.suite.hash.hash_len();
+                let mut base: String = spec.canonical_name().chars().filter(|c| c.is_ascii()).collect();
+                while base.len() < hl - 3 {
+                    base.push('x');
+                }
+                base.truncate(hl - 3);
+                base.push_str("\u{44e}\u{433}"); // two 2-byte characters: hl-1 characters, hl+1 bytes
+                si.custom_name_len = Some(hl + 2);
+                sr.custom_name_len = Some(hl + 2);
+                oi.name = Some(format!("{base}1"));
+                or.name = Some(format!("{base}2"));
             },
             Dis::StaticKeyNegated(to_initiator) => {
                 let pat = spec.pattern();
@@ -394,6 +410,7 @@ fn kinds_for(spec: &SessionSpec, k: u64) -> Vec<Dis> {
         Dis::StaticKeyBit(false, (k * 3) as u16),
         Dis::StaticKeyNegated(true),
         Dis::StaticKeyNegated(false),
+        Dis::CustomNameUnicode,
     ]
 }
 
